@@ -380,7 +380,8 @@ def handle (cmd : String) (hd : List String) (vs : List (List K)) : Reply K :=
       let meth := match strAt hd 0 with | "unity" => MtMethod.unity | "eigen" => MtMethod.eigen | _ => MtMethod.adapt
       needTw nfft (fun t =>
         let x := vecAt vs 0
-        let lams := vecAt vs 1
+        -- a concentration ratio handed over by the C routine's glue can be 1 + a few ulp: the code floors 1 - λ at 0
+        let lams := (vecAt vs 1).map (fun l => if reGt l 1 then 1 else l)
         let tapers := vs.drop 3
         let Sk := tapers.map (fun tp => eigenspectrum t x tp nfft)
         let SkA := Sk.map (fun r => r.map abs2)
